@@ -7,6 +7,8 @@ from sys import argv, stdout
 
 from json_ref_dict import materialize, RefDict
 
+from statham.schema.exceptions import FeatureNotImplementedError
+from statham.schema.helpers import reraise
 from statham.schema.parser import parse
 from statham.serializers import serialize_python
 from statham.titles import title_labeller
@@ -83,6 +85,11 @@ stdout.
     return
 
 
+@reraise(
+    RecursionError,
+    FeatureNotImplementedError,
+    "Could not parse cyclical dependencies of this schema.",
+)
 def main(input_uri: str) -> str:
     """Get a schema from a URI, and then return the generated python module.
 
